@@ -9,6 +9,14 @@ theorem flatMap_nil_fun {α β : Type} (l : List α) : l.flatMap (fun _ => ([] :
   | nil => rfl
   | cons a l ih => simp [ih]
 
+theorem flatMap_congr_mem {α β : Type} {l : List α} {f g : α → List β} (h : ∀ a ∈ l, f a = g a) :
+    l.flatMap f = l.flatMap g := by
+  induction l with
+  | nil => rfl
+  | cons a l ih =>
+    simp only [List.flatMap_cons]
+    rw [h a List.mem_cons_self, ih (fun b hb => h b (List.mem_cons_of_mem _ hb))]
+
 theorem flatMap_append_perm {α β : Type} (l : List α) (g h : α → List β) :
     (l.flatMap (fun a => g a ++ h a)).Perm (l.flatMap g ++ l.flatMap h) := by
   induction l with
